@@ -112,7 +112,7 @@ def run_case(case, ses):
     for bi, blk in enumerate(blocks):
         loc = sorted(blk['locals'])
         label = '%s/block%d(%dr,%dl)' % (name, bi, len(blk['rows']), len(loc))
-        core = len(loc) <= 30
+        core = len(loc) <= (12 if name.startswith('rand') else 30)   # large blocks of seeded random members are stretch
         res, model = project_block(ses, cp, blk, vs, S + Sdefs, label, 'projection' if loc else 'projection-qf', core,
                                    twin=(bi == 0), sample=dict(model=name, rows=len(blk['rows']), locals=len(loc)))
         if res == 'sat':
